@@ -116,7 +116,7 @@ func (e *c20env) ReadPacketData() ([]byte, *gopacket.CaptureInfo, error) {
 		e.reads++
 		sym := e.script[i]
 		vs.Observe("read", "%c%d", sym, i)
-		if sym == 'F' || sym == 'P' || sym == 'p' || sym == 'q' {
+		if sym == 'F' || sym == 'P' || sym == 'p' || sym == 'q' || sym == 'c' || sym == 'd' || sym == 'e' {
 			data = []byte{sym, byte(i >> 8), byte(i)}
 			return
 		}
@@ -154,6 +154,13 @@ func (e *c20env) ProcessPacketData(data []byte, _ *gopacket.CaptureInfo) error {
 		return io.ErrUnexpectedEOF
 	case 'q':
 		return syscall.EAGAIN
+	case 'c':
+		// a sub-operation of the processor was cancelled on a context of its own: not the scan's cancellation
+		return fmt.Errorf("process-%d: %w", pos, context.Canceled)
+	case 'd':
+		return fmt.Errorf("process-%d: %w", pos, context.DeadlineExceeded)
+	case 'e':
+		return io.EOF
 	}
 	return nil
 }
@@ -176,6 +183,15 @@ func c20model(script string) (processed, errs []string, terminated bool, sleeps 
 		case sym == 'q':
 			processed = append(processed, fmt.Sprintf("q%d", i))
 			errs = append(errs, syscall.EAGAIN.Error())
+		case sym == 'c':
+			processed = append(processed, fmt.Sprintf("c%d", i))
+			errs = append(errs, fmt.Sprintf("process-%d: %v", i, context.Canceled))
+		case sym == 'd':
+			processed = append(processed, fmt.Sprintf("d%d", i))
+			errs = append(errs, fmt.Sprintf("process-%d: %v", i, context.DeadlineExceeded))
+		case sym == 'e':
+			processed = append(processed, fmt.Sprintf("e%d", i))
+			errs = append(errs, io.EOF.Error())
 		case strings.IndexByte(c20Transient, sym) >= 0:
 		case sym == 'U':
 			errs = append(errs, "unknown failure")
@@ -347,7 +363,7 @@ func c20run(script string, consumerStopsOnCancel bool, withCancel bool, byDeadli
 		// frame is processed exactly once" has no exception for a frame read while the scan is ending
 		var readFrames []string
 		for i := 0; i < e.pos; i++ {
-			if strings.IndexByte("FPpqZ", script[i]) >= 0 {
+			if strings.IndexByte("FPpqZcde", script[i]) >= 0 {
 				readFrames = append(readFrames, fmt.Sprintf("%c%d", script[i], i))
 			}
 		}
@@ -371,7 +387,7 @@ func verifC20(c *drv.Ctx) {
 		alpha, maxLen, maxLenD1 = "FPATtRUEBCXYar", 5, 4
 		ext, extLen = "FPpqZATtwarRUVHIMEBCXY", 4
 	}
-	c.R.Rule = fmt.Sprintf("every reachable read-outcome script of length <= %d over %q and of length <= %d over the extended alphabet %q (terminal symbols only last; p, q = frames whose processing fails with io.ErrUnexpectedEOF / EAGAIN, w = EWOULDBLOCK wrapped with %%w, a = EAGAIN in an os.SyscallError) x {consumer drains to close, consumer stops on cancel, consumer drains to close and the scan ends by its context's DEADLINE passing instead of a cancel call}; "+
+	c.R.Rule = fmt.Sprintf("every reachable read-outcome script of length <= %d over %q and of length <= %d over the extended alphabet %q (terminal symbols only last; plus length <= 4 over FcdePUAE with c, d, e = frames whose processing fails with an error wrapping context.Canceled / wrapping context.DeadlineExceeded / io.EOF itself; p, q = frames whose processing fails with io.ErrUnexpectedEOF / EAGAIN, w = EWOULDBLOCK wrapped with %%w, a = EAGAIN in an os.SyscallError) x {consumer drains to close, consumer stops on cancel, consumer drains to close and the scan ends by its context's DEADLINE passing instead of a cancel call}; "+
 		"each run through the real ReceivePackets under the scheduler, reads being scheduling points: deviation bound 0 with the cancel event injected at every choice point for all scripts, bound 1 for scripts of length <= %d; "+
 		"non-trivial = script contains at least one frame or error symbol", maxLen, alpha, extLen, ext, maxLenD1)
 	seenScript := map[string]bool{}
@@ -414,6 +430,9 @@ func verifC20(c *drv.Ctx) {
 	}
 	c20scripts(alpha, maxLen, each)
 	c20scripts(ext, extLen, each)
+	// processing errors whose VALUE is one the read side gives a meaning to: wrapping context.Canceled (c),
+	// wrapping context.DeadlineExceeded (d), io.EOF itself (e) - reported, never the end of the receiver
+	c20scripts("FcdePUAE", 4, each)
 	// long fault bursts (no bound on how many failures in a row the receiver survives): hundreds of
 	// unknown failures with transient ones in between, then frames again
 	for _, n := range []int{150, 230, 1100} {
